@@ -253,6 +253,7 @@ ATOMS = dict(
     tokparam_deep=[SP, CR, B("a"), B("="), B(";"), B("&"), B("\"")],
     nameaddr_deep=[SP, CR, B("a"), B("<b>"), B(";"), B("="), B("\""), B(",")],
     nameaddr_quoted=[B("\""), B("\\"), B("a"), B("<b>"), CR, B(";"), SP],
+    tokparam_quoted=[B("\""), B("\\"), B("a"), B("="), B(";"), SP],
     hdrnum=[SP, CR, LF, B("l:"), B("Expires:"), B("CSeq:"), B("123456789"), B("0"), B("9"), B(" ACK"), B("x")],
     quoted=[SP, HT, CR, LF, B("a"), B("\""), B("\\"), [127], [1], [200]],
 )
@@ -278,6 +279,7 @@ def cfgs_sub(start=(0,)):
     fam.append(("contacts", "contacts", st([k("contacts", ccap=c) for c in (0, 1, 2)] + [k("pais")]), 5, 6))
     fam.append(("tokparam", "tokparam", st([k("tokparam", flags=f) for f in F_TOK]), 4, 5))
     fam.append(("tokparam_deep", "tokparam_deep", st([k("tokparam", flags=f) for f in F_TOK]), 6, 8))
+    fam.append(("tokparam_quoted", "tokparam_quoted", st([k("tokparam", flags=f) for f in (0, 4, 16, 25)]), 7, 8))
     fam.append(("urilists", "tokparam", st([k("uriparams", flags=f, pcap=p) for f in (64, 72) for p in (0, 1, 2)] +
                                            [k("urihdrs", flags=f, pcap=p) for f in (128, 136) for p in (0, 1, 2)]), 4, 5))
     fam.append(("urilists_deep", "tokparam_deep", st([k("uriparams", flags=f, pcap=p) for f in (64, 72) for p in (0, 1, 2)] +
